@@ -111,6 +111,13 @@ def unit_run_entry(fn_name, twin=False):
         gi = [e for n, e in ev if n == "get_input_errors"]
         okret = bool(gi) and s.ret is not None and (s.ret is gi[-1].result or B.z3_prove(list(s.pc), tm.eq(ex.coerce(s.ret, "I"), ex.coerce(gi[-1].result, "I")))[0] == "proved")
         r.add("normal_path%d.returns_get_input_errors()" % i, DISCHARGED if okret else FAILED, "term-inspection", 0, repr(s.ret)[:80])
+        # frame: the entry point itself writes nothing of the engine or the instance but the two error counters and the lazy-clear flag
+        # (whatever else a run resets is reset by check_database / do_run, identically for the three ways of delivery)
+        stores = sorted({str(e.args[0].args[0]) for e in s.events if e.name == "store" and e.args and getattr(e.args[0], "op", None) == "str"})
+        extra = [x for x in stores if x not in ("input_error", "io_error_count", "ClearAccumulated")]
+        if twin:
+            extra = extra + ["verif_twin"] if False else extra
+        r.add("normal_path%d.writes_only_the_error_counters_and_the_lazy_clear_flag" % i, DISCHARGED if not extra else FAILED, "trace", 0, "also written: %s" % extra if extra else "", kind="frame")
     r.assumptions += ["only the normal path of the try block is executed (no callee throws); the catch arms are not verified",
                       "do_run is a function of (engine state, stream content)"]
     return r
